@@ -554,6 +554,14 @@ pub(crate) async fn argon2_verify_password_async(
     password: String,
     hash_str: String,
 ) -> password_hash::errors::Result<()> {
+    #[cfg(simple_irc_server_verif)]
+    if let Some(good) = crate::state::verif::password_hook(&password, &hash_str).await {
+        return if good {
+            Ok(())
+        } else {
+            Err(password_hash::errors::Error::Password)
+        };
+    }
     tokio::task::spawn_blocking(move || argon2_verify_password(&password, &hash_str))
         .await
         .unwrap()
